@@ -196,12 +196,12 @@ def _c3(cls: ClassInfo) -> List[ClassInfo]:
 
 
 class Module:
-    def __init__(self, repo: 'Repo', name: str, path: str, relpath: str):
+    def __init__(self, repo: 'Repo', name: str, path: str, relpath: str, source: Optional[str] = None):
         self.repo = repo
         self.name = name
         self.path = path
         self.relpath = relpath
-        src = open(path, encoding='utf-8').read()
+        src = source if source is not None else open(path, encoding='utf-8').read()
         self.source = src
         self.digest = hashlib.sha256(src.encode()).hexdigest()[:16]
         try:
@@ -254,9 +254,12 @@ class Module:
 
 
 class Repo:
-    def __init__(self, root: str, package: str = 'onl'):
+    def __init__(self, root: str, package: str = 'onl', overlay: Optional[Dict[str, str]] = None):
+        """overlay: {relative path: source text} replaces the file content in memory (used by the
+        checker self-validation to analyse variants without writing them anywhere)"""
         self.root = root
         self.package = package
+        overlay = overlay or {}
         self.modules: Dict[str, Module] = {}
         pkg_dir = os.path.join(root, package)
         if not os.path.isdir(pkg_dir):
@@ -273,7 +276,7 @@ class Repo:
                     name = rel[:-3].replace(os.sep, '.')
                     if name.endswith('.__init__'):
                         name = name[:-9]
-                    self.modules[name] = Module(self, name, path, rel)
+                    self.modules[name] = Module(self, name, path, rel, overlay.get(rel))
         self._link()
 
     # -- resolution -----------------------------------------------------------
